@@ -3,6 +3,8 @@
   Frame conditions are equalities of every fetch view (list, detail, topic views) at every clock value.
 -/
 import BurrowVerif.Proofs.StorageDelete
+import BurrowVerif.Proofs.Locks
+import BurrowVerif.Generated.StorageLocks
 
 namespace Burrow.Props.C09
 open Burrow Burrow.Storage Burrow.Spec.Storage
@@ -138,5 +140,39 @@ example : groupsOf (run s0 hist) "c" = ["g", "h"] := by decide
 example : groupsOf (run s0 (hist ++ [.deleteGroup { cluster := "c", group := "g", topic := "t" }])) "c" = ["g", "h"] := by decide
 example : groupsOf (run s0 (hist ++ [.deleteGroup { cluster := "c", group := "h", topic := "t" }])) "c" = ["g"] := by decide
 example : groupsOf (run s0 (hist ++ [.fetchConsumer 1100 "c" "g"])) "c" = ["h"] := by decide
+
+/-! ### under the worker pool
+
+The theorems above are about requests applied one after another.  The storage module applies them
+on a pool of workers; what makes "deleted after its last commit" mean anything there is that a
+group's deletion is queued behind the group's earlier commits.  That rests on the routing switch of
+`mainLoop`, REGENERATED from inmemory.go on every run. -/
+
+/-- a group's deletion, its commits, its owner updates and its detail reads are all routed by the hash
+    of cluster+group (and by nothing else) -/
+theorem group_deletion_is_routed_with_the_groups_commits :
+    (Generated.storageHandlers.filter fun h => h.1 == "StorageSetDeleteGroup" || h.1 == "StorageSetConsumerOffset" ||
+        h.1 == "StorageSetConsumerOwner" || h.1 == "StorageClearConsumerOwners" || h.1 == "StorageFetchConsumer").map
+      (fun h => (h.1, h.2.2.1)) =
+    [("StorageClearConsumerOwners", "hashed"), ("StorageFetchConsumer", "hashed"), ("StorageSetConsumerOffset", "hashed"),
+     ("StorageSetConsumerOwner", "hashed"), ("StorageSetDeleteGroup", "hashed")] := by decide
+
+/-- hence a deletion that arrives after a commit of the same group is taken by the same worker, after
+    that commit: whatever the number of workers and the assignment of everything else -/
+theorem deletion_follows_earlier_commits (n : Nat) (hash : String → Nat) (pick : Nat → Nat)
+    (before between after : List Locks.Req) (commit delete : Locks.Req)
+    (h1 : commit.hashed = true) (h2 : delete.hashed = true) (hk : commit.key = delete.key) :
+    let arrivals := before ++ commit :: between ++ delete :: after
+    let w := Locks.assign n hash pick commit
+    Locks.assign n hash pick delete = w ∧
+    ∃ q1 q2 q3, Locks.queueOf n hash pick arrivals w = q1 ++ commit :: q2 ++ delete :: q3 := by
+  intro arrivals w
+  have hw : Locks.assign n hash pick delete = w := by
+    simp only [w, Locks.assign, h1, h2, hk, if_true]
+  refine ⟨hw, ?_⟩
+  refine ⟨(before.filter fun r => Locks.assign n hash pick r == w), (between.filter fun r => Locks.assign n hash pick r == w),
+    (after.filter fun r => Locks.assign n hash pick r == w), ?_⟩
+  simp only [arrivals, Locks.queueOf, List.filter_append, List.filter_cons, hw, beq_self_eq_true, if_true, w]
+  done
 
 end Burrow.Props.C09
